@@ -884,6 +884,14 @@ func (env *Env) havocLocation(st *State, m spec.Expr) {
 			v := env.eval(m.Args[0])
 			sl, ok := types.Unalias(v.T).Underlying().(*types.Slice)
 			if !ok {
+				// Mem(r) with r a reference (ghost field of type ref): the byte array that r identifies, e.g. the internal
+				// buffer of a bufio.Reader
+				if len(v.L) == 1 && v.L[0].Sort == smt.Ref {
+					key := memKeyPrefix(types.Universe.Lookup("byte").Type())
+					arr := en.heapArr(st, key, smt.Ref, smt.ArrayOf(bv64, smt.BV(8)))
+					en.setHeapArr(st, key, smt.Store(arr, v.L[0], en.ctx.Fresh("hvmem", smt.ArrayOf(bv64, smt.BV(8)))))
+					return
+				}
 				specErr("Mem() of non-slice")
 			}
 			for _, l := range en.leaves(sl.Elem()) {
